@@ -1,4 +1,5 @@
-(* C16 driver.  Case:
+(* C16 driver.  Case (mode = seq | frozen | conc; frozen is seq on a copy of
+   the environment whose shared state lies in read-only memory):
      <mode> <env> (heap (cell val)...) (threads (<op>...)...) (sched tid...)
      <op> = (Name arg (r cell...) (w (cell val)...))
    The operation names, their arguments and the environment name are for the
@@ -20,7 +21,7 @@ let oper_of_sx x =
 let () = main_loop (fun c ->
   match c with
   | [mode; _env; heap; threads; sched] ->
-    let conc = (match atom mode with "conc" -> true | "seq" -> false | _ -> failwith "bad mode") in
+    let conc = (match atom mode with "conc" -> true | "seq" | "frozen" -> false | _ -> failwith "bad mode") in
     let h0 = List.map cv (tagged "heap" heap) in
     let ops = List.map (fun t -> List.map oper_of_sx (lst t)) (tagged "threads" threads) in
     let sch = List.map sx_nat (tagged "sched" sched) in
